@@ -45,9 +45,25 @@ def range_fixes(cfg, tier, seed):
     out = [dict(range=v) for v in vals]
     return ([None] if sb <= 16 else []) + out
 
+def cuts_fixes(cfg, tier, seed):
+    """concrete cut points (c1, c2) of the 3-symbol model at wide configurations: probabilities and cumulatives
+    become constants, so every multiplication/division in the step is by a constant (linear for the int-blasting
+    solvers); coder state, data words and symbols stay symbolic.  Small configurations: fully symbolic."""
+    import random
+    wb, sb, p = cfg_bits(cfg)
+    if sb <= 16: return [None]
+    T = 1 << p
+    pairs = [(1, 2), (1, T - 1), (T - 2, T - 1), (T // 2, T // 2 + 1), (1, T // 2), (T // 3, 2 * T // 3 + 1)]
+    rng = random.Random(seed * 7919 + sb * 31 + p)
+    for _ in range(2 if tier == 'quick' else 8):
+        a = rng.randrange(1, T - 1); b = rng.randrange(a + 1, T)
+        pairs.append((a, b))
+    if tier == 'quick': pairs = pairs[:4] + pairs[6:]
+    return ([None] if tier == 'thorough' else []) + [dict(c1=a, c2=b) for a, b in pairs]
+
 PROPS['C01'] = dict(
     obligations=[
-        L('c01_step', 'k_c01_step_{cfg}', QUICK, ALL),
+        L('c01_step', 'k_c01_step_{cfg}', QUICK, ALL, fixes=cuts_fixes),
         K('c01_ctor_u8_u16', 'ans', 'ctor_u8_u16'), K('c01_ctor_u16_u32', 'ans', 'ctor_u16_u32'), K('c01_ctor_u32_u64', 'ans', 'ctor_u32_u64'),
         K('c01_ctor_u8_u32', 'ans', 'ctor_u8_u32', tiers=('thorough',)),
         K('c01_export_u8_u16', 'ans', 'export_u8_u16'), K('c01_export_u16_u32', 'ans', 'export_u16_u32'), K('c01_export_u32_u64', 'ans', 'export_u32_u64'),
@@ -67,7 +83,7 @@ PROPS['C01'] = dict(
 
 PROPS['C04'] = dict(
     obligations=[
-        L('c04_step', 'k_c04_step_{cfg}', QUICK, ALL),
+        L('c04_step', 'k_c04_step_{cfg}', QUICK, ALL, fixes=cuts_fixes),
         K('c04_binary_u8_u16', 'ans', 'binary_u8_u16'), K('c04_binary_u16_u32', 'ans', 'binary_u16_u32'),
         K('c04_binary_u32_u64', 'ans', 'binary_u32_u64'), K('c04_binary_u8_u32', 'ans', 'binary_u8_u32', tiers=('thorough',)),
         K('c04_guards_u8_u16', 'ans', 'guards_u8_u16'), K('c04_guards_u16_u32', 'ans', 'guards_u16_u32'),
@@ -125,6 +141,46 @@ PROPS['C11'] = dict(
     bounds='as C02 cut obligations, with StateBits/WordBits + k arbitrary suffix words appended after the sealed output; StateBits = 2*WordBits configurations (all presets)',
     outside='StateBits > 2*WordBits: known finding (see known_findings.json), the obligation is not claimed there; k >= 3',
     assumptions=['as C02'],
+)
+
+CH_Q = ['u8_u16_p4', 'u8_u16_p8', 'u16_u32_p12', 'u32_u64_p24']
+CH_ALL = ['u8_u16_p4', 'u8_u16_p8', 'u8_u32_p8', 'u16_u32_p12', 'u16_u32_p16', 'u16_u64_p16', 'u32_u64_p24', 'u32_u64_p32']
+PROPS['C13'] = dict(
+    obligations=[
+        L('c13_step', 'k_c13_step_{cfg}', CH_Q, CH_ALL, soft=[20, 21], fixes=cuts_fixes),
+        L('c13_heads_io', 'k_c13_io_{cfg}', ['u8_u16_p4', 'u8_u16_p8', 'u16_u32_p12', 'u32_u64_p24'], ['u8_u16_p4', 'u8_u16_p8', 'u8_u32_p8', 'u16_u32_p12', 'u32_u64_p24']),
+        L('c13_precision', 'k_c13_prec_{cfg}', ['u8_u16_p4_p8', 'u8_u16_p8_p3', 'u16_u32_p12_p16', 'u32_u64_p24_p8'],
+          ['u8_u16_p4_p8', 'u8_u16_p8_p3', 'u16_u32_p12_p16', 'u16_u32_p12_p5', 'u32_u64_p24_p32', 'u32_u64_p24_p8'], soft=[20]),
+        L('c13_rt_k1', 'k_c13_rt_k1_{cfg}', ['u8_u16_p4', 'u8_u16_p8'], ['u8_u16_p4', 'u8_u16_p8', 'u8_u32_p8', 'u16_u32_p12', 'u32_u64_p24'], cap=dict(quick=60, thorough=600)),
+        L('c13_rt_k2', 'k_c13_rt_k2_{cfg}', [], ['u8_u16_p4', 'u8_u16_p8', 'u16_u32_p12', 'u32_u64_p24'], cap=dict(quick=60, thorough=600)),
+    ],
+    bounds='one decode->encode step from ANY heads satisfying Inv_chain (via the feature-guarded from_raw_parts hook + Seek), any next data word / end of data, any (cum,p); '
+           'head export/import routes on arbitrary data of <= StateBits/WordBits+2 words; precision change round trips from any Inv_chain heads; composed runs k <= 2',
+    outside='k >= 3 composed runs (covered inductively by the step obligation); Word/State usize/u128',
+    assumptions=['Inv_chain: remainders in [2^(SB-WB-P), 2^(SB-P)), compressed head non-zero; assumed on symbolic heads and proved preserved'],
+)
+
+PROPS['C14'] = dict(
+    obligations=[
+        L('c14_chunk', 'k_c14_chunk_{cfg}', ['u8_u16_p4', 'u8_u16_p8', 'u8_u16_p2', 'u16_u32_p8', 'u32_u64_p16'], ['u8_u16_p4', 'u8_u16_p8', 'u8_u16_p2', 'u16_u32_p8', 'u16_u32_p16', 'u32_u64_p16', 'u32_u64_p32']),
+        L('c14_locality_k1', 'k_c13_rt_k1_{cfg}', ['u8_u16_p4', 'u8_u16_p8'], ['u8_u16_p4', 'u8_u16_p8', 'u8_u32_p8', 'u16_u32_p12', 'u32_u64_p24'], cap=dict(quick=60, thorough=600)),
+        L('c14_locality_k2', 'k_c13_rt_k2_{cfg}', ['u8_u16_p4'], ['u8_u16_p4', 'u8_u16_p8', 'u16_u32_p12', 'u32_u64_p24'], cap=dict(quick=90, thorough=600)),
+        L('c14_locality_k3', 'k_c13_rt_k3_{cfg}', [], ['u8_u16_p4'], cap=dict(quick=90, thorough=900)),
+    ],
+    bounds='k <= 3 decoded symbols over arbitrary binary data (4-6 words); replacement model arbitrary at a symbolic position j; chunk reference for PRECISION dividing WordBits',
+    outside='PRECISION not dividing WordBits for the explicit chunk reference (locality itself is checked at all listed precisions); k > 3',
+    assumptions=[],
+)
+
+PROPS['C09'] = dict(
+    obligations=[
+        L('c09_ans', 'k_c09_ans_{cfg}', ['u8_u16_p4', 'u8_u16_p8', 'u16_u32_p12', 'u32_u64_p24'], soft=[20], fixes=cuts_fixes),
+        L('c09_chain', 'k_c09_chain_{cfg}', ['u8_u16_p4', 'u8_u16_p8', 'u16_u32_p12', 'u32_u64_p24']),
+    ],
+    bounds='one failing encode (impossible symbol, or write fault at a symbolic point of a bounded sink) after one successful encode from ANY invariant state; observational oracle: '
+           'the earlier symbol still decodes and a further encode/decode round trip succeeds; out-of-support symbols over the full symbol type for every model family (Kani harnesses)',
+    outside='histories longer than the inductive step; models over symbol types wider than the harness instantiations',
+    assumptions=['Inv_ans / Inv_chain on symbolic pre-states'],
 )
 
 PROPS['C17'] = dict(
